@@ -7,7 +7,7 @@ CONSTANTS Mode = "chain"
           ForkAt = 203
           DepositAt = 203
           LeadZ = 1
-          Heights = {199, 200, 202, 203, 205, 206, 207}
+          Heights = {199, 200, 202, 203, 204, 205, 206, 207}
           EmitOn = TRUE
 INVARIANT PropC23
 CHECK_DEADLOCK FALSE
